@@ -36,21 +36,21 @@ type Rule struct {
 // Spec renders the rule specification (without -A chain) in save order.
 func (r *Rule) Spec() string {
 	var p []string
-	if r.Src != "" {
-		p = append(p, "-s", r.Src)
+	opt := func(flag, v string) {
+		if v == "" {
+			return
+		}
+		if strings.HasPrefix(v, "! ") {
+			p = append(p, "!", flag, v[2:])
+		} else {
+			p = append(p, flag, v)
+		}
 	}
-	if r.Dst != "" {
-		p = append(p, "-d", r.Dst)
-	}
-	if r.In != "" {
-		p = append(p, "-i", r.In)
-	}
-	if r.Out != "" {
-		p = append(p, "-o", r.Out)
-	}
-	if r.Proto != "" {
-		p = append(p, "-p", r.Proto)
-	}
+	opt("-s", r.Src)
+	opt("-d", r.Dst)
+	opt("-i", r.In)
+	opt("-o", r.Out)
+	opt("-p", r.Proto)
 	for _, m := range r.Matches {
 		p = append(p, quoteIfNeeded(m))
 	}
@@ -100,6 +100,14 @@ func (t *Table) clone() *Table {
 	return n
 }
 
+// CmdRec is one executed command line.
+type CmdRec struct {
+	Cmd   string
+	Args  []string
+	Stdin string
+	OK    bool
+}
+
 // Set is an ipset.
 type Set struct {
 	Name    string
@@ -115,6 +123,9 @@ type Kernel struct {
 	// Cmds logs every command line; Rejected every command the kernel refused, with the reason.
 	Cmds     []string
 	Rejected []string
+	// Script records every command with its stdin and the simulator's verdict (never cleared): used to replay the exact
+	// trace against the real tools.
+	Script []CmdRec
 	// FailAt > 0 makes the FailAt-th command (counted from the last ResetFault) fail without effect.
 	FailAt int
 	count  int
@@ -198,13 +209,25 @@ func parseRule(tok []string) (*Rule, error) {
 			t = append(t, x)
 		}
 	}
+	neg := ""
 	for i := 0; i < len(t); i++ {
 		need := func() (string, error) {
 			if i+1 >= len(t) {
 				return "", fmt.Errorf("option %q requires an argument", t[i])
 			}
 			i++
-			return t[i], nil
+			v := t[i]
+			if neg != "" {
+				v, neg = "! "+v, ""
+			}
+			return v, nil
+		}
+		if t[i] == "!" && i+1 < len(t) {
+			switch t[i+1] {
+			case "-s", "--source", "--src", "-d", "--destination", "--dst", "-i", "--in-interface", "-o", "--out-interface", "-p", "--protocol":
+				neg = "!"
+				continue
+			}
 		}
 		switch t[i] {
 		case "-s", "--source", "--src":
@@ -244,6 +267,7 @@ func parseRule(tok []string) (*Rule, error) {
 			if v != "all" {
 				r.Proto = v
 			}
+			_ = neg
 		case "-j", "--jump", "-g", "--goto":
 			g := t[i] == "-g" || t[i] == "--goto"
 			v, err := need()
@@ -768,6 +792,7 @@ func (k *Kernel) Run(cmd string, args []string, stdin []byte) (string, error) {
 		return "injected failure", utilexec.CodeExitError{Err: fmt.Errorf("exit status 4"), Code: 4}
 	}
 	out, err := k.run(cmd, args, stdin)
+	k.Script = append(k.Script, CmdRec{Cmd: cmd, Args: append([]string{}, args...), Stdin: string(stdin), OK: err == nil})
 	if err != nil {
 		reason := err.Error()
 		// -C probing and "already exists" are not refusals of a batch
